@@ -31,6 +31,7 @@ import re
 from .model import unparse, walk
 
 _WORD = re.compile(r'[A-Za-z]+|\d+')
+_IDENT = re.compile(r'^[A-Za-z_][A-Za-z0-9_.]*$')
 
 # (relative file, function qualname, rename 'a->b', kept word) -> reason
 EXEMPT = {
@@ -54,7 +55,13 @@ def _leaves(a, b, out):
         return _leaves(a.value, b.value, out)
     if isinstance(a, ast.Constant):
         if isinstance(a.value, str) and isinstance(b.value, str):
-            out.append((a.value, b.value, a))
+            # only identifier-like strings (keys, names) take part in the
+            # word-wise comparison; messages and format strings count as one
+            # opaque token each
+            if _IDENT.match(a.value) and _IDENT.match(b.value):
+                out.append((a.value, b.value, a))
+            elif a.value != b.value:
+                out.append(('<text 1>', '<text 2 other>', a))
             return True
         if type(a.value) is not type(b.value):
             return False
